@@ -47,6 +47,8 @@ Definition out_eqb (a b : out) : bool :=
   | OTokens a r i s, OTokens a' r' i' s' =>
       opt_eqb Nat.eqb a a' && opt_eqb Nat.eqb r r' && opt_eqb Nat.eqb i i' && strs_eqb s s'
   | OActive s c k, OActive s' c' k' => strs_eqb s s' && str_eqb c c' && tcls_eqb k k'
+  | OAuthzRT c a i s, OAuthzRT c' a' i' s' =>      (* the stated scope went through a Python set: compared as a set (a value requested twice is stated once) *)
+      opt_eqb Nat.eqb c c' && opt_eqb Nat.eqb a a' && opt_eqb Nat.eqb i i' && subset s s' && subset s' s
   | _, _ => false
   end.
 Definition tok_eqb (a b : token) : bool :=
